@@ -22,6 +22,7 @@ type mutant struct {
 	Neutral  bool   `json:"neutral"`
 	Count    int    `json:"count"`
 	GitRef   string `json:"git_ref"`
+	Patch    string `json:"patch"` // unified diff (path relative to /verif) applied to copies of the files it names
 	Note     string `json:"note"`
 }
 
@@ -80,6 +81,9 @@ func runMutant(self string, m mutant, repo, known string) mutantResult {
 	if m.Neutral {
 		r.Kind = "neutral"
 	}
+	if m.Patch != "" {
+		return runPatchMutant(self, m, r, repo, known)
+	}
 	src, err := os.ReadFile(filepath.Join(repo, m.File))
 	if err != nil {
 		r.Status, r.Detail = "skipped", "file missing"
@@ -112,7 +116,12 @@ func runMutant(self string, m mutant, repo, known string) mutantResult {
 	defer os.RemoveAll(td)
 	vf := filepath.Join(td, filepath.Base(m.File))
 	_ = os.WriteFile(vf, []byte(variant), 0o644)
-	cmd := exec.Command(self, "-property", m.Property, "-tier", "quick", "-repo", repo, "-evidence-dir", filepath.Join(td, "ev"), "-known", known, "-overlay", m.File+"="+vf)
+	return verdictOf(self, m, r, repo, known, td, m.File+"="+vf)
+}
+
+// verdictOf runs the property's quick check on the variant given as an overlay list.
+func verdictOf(self string, m mutant, r mutantResult, repo, known, td, overlay string) mutantResult {
+	cmd := exec.Command(self, "-property", m.Property, "-tier", "quick", "-repo", repo, "-evidence-dir", filepath.Join(td, "ev"), "-known", known, "-overlay", overlay)
 	cmd.Env = append(os.Environ(), "GOFLAGS=-mod=mod", "GOPROXY=off", "GOSUMDB=off", "GOTOOLCHAIN=local", "GOWORK=off", "GOMAXPROCS=4")
 	out, _ := cmd.CombinedOutput()
 	var viol []string
@@ -147,6 +156,53 @@ func runMutant(self string, m mutant, repo, known string) mutantResult {
 	}
 	r.Status = "survived"
 	return r
+}
+
+
+// runPatchMutant builds the variant by applying a recorded unified diff (a seeded
+// breaking change kept under /verif/seeded) to copies of the files it touches,
+// outside /repo, and analyses it through the overlay.
+func runPatchMutant(self string, m mutant, r mutantResult, repo, known string) mutantResult {
+	verif := filepath.Dir(filepath.Dir(self))
+	pf := m.Patch
+	if !filepath.IsAbs(pf) {
+		pf = filepath.Join(verif, pf)
+	}
+	diff, err := os.ReadFile(pf)
+	if err != nil {
+		r.Status, r.Detail = "skipped", "patch file missing"
+		return r
+	}
+	var files []string
+	for _, l := range strings.Split(string(diff), "\n") {
+		if strings.HasPrefix(l, "+++ b/") {
+			files = append(files, strings.TrimSpace(strings.TrimPrefix(l, "+++ b/")))
+		}
+	}
+	td, err := os.MkdirTemp("", "xpmut")
+	if err != nil || len(files) == 0 {
+		r.Status = "skipped"
+		return r
+	}
+	defer os.RemoveAll(td)
+	var ov []string
+	for _, f := range files {
+		src, err := os.ReadFile(filepath.Join(repo, f))
+		if err != nil {
+			r.Status, r.Detail = "skipped", "file missing: "+f
+			return r
+		}
+		dst := filepath.Join(td, "src", f)
+		_ = os.MkdirAll(filepath.Dir(dst), 0o755)
+		_ = os.WriteFile(dst, src, 0o644)
+		ov = append(ov, f+"="+dst)
+	}
+	ap := exec.Command("patch", "-p1", "-s", "--no-backup-if-mismatch", "-d", filepath.Join(td, "src"), "-i", pf)
+	if out, err := ap.CombinedOutput(); err != nil {
+		r.Status, r.Detail = "skipped", "patch does not apply on this tree: "+cut(string(out), 120)
+		return r
+	}
+	return verdictOf(self, m, r, repo, known, td, strings.Join(ov, ","))
 }
 
 func cut(s string, n int) string {
